@@ -19,7 +19,7 @@ ANCHORS = ['penman.layout:interpret', 'penman.layout:_interpret_node', 'penman.l
            'penman.layout:_configure', 'penman.layout:_preconfigure', 'penman.layout:_configure_node',
            'penman.layout:_find_next', 'penman.layout:_process_epigraph']
 MIN_EVAL = {'quick': 3000, 'thorough': 100000}
-REQUIRED_COUNTERS = ['wf_trees']
+REQUIRED_COUNTERS = ['wf_trees', 'texts_with_comment_lines']
 ASSUMPTIONS = ['well-formedness is decided by the reference reading (pmon/ref/interp.py)']
 MODELS_RANDOM = ['default', 'amr', 'noop', 'mini'] + [f'rand{i}' for i in range(12)]
 
@@ -83,6 +83,9 @@ def oracle(ctx, kind, p):
         _trees.c02(ctx, node, mname, meta)
         if p['i'] % 4 == 0:
             _trees.c02_codec(ctx, node, mname, meta)
+        if p['i'] % 4 == 1:
+            _trees.c02_text(ctx, node, mname, rng)
+            ctx.count('texts_with_comment_lines')
         f = T.features(node, rm)
         ctx.case(ctx.current, len(T.nodes(node)) >= 2 and bool(f))
         ctx.count('wf_trees')
